@@ -23,7 +23,20 @@ def run_one(scn: cw.Scenario, policy: Any, **kw: Any) -> dict[str, Any]:
     r = cw.execute(scn, policy, **kw)
     r["trace"] = cw.normalize(r["events"])
     del r["events"]
+    _collect()
     return r
+
+
+_runs = 0
+
+
+def _collect() -> None:
+    """SQLite connections are closed by their finalisers; a worker process runs thousands of executions."""
+    global _runs
+    _runs += 1
+    if _runs % 50 == 0:
+        import gc
+        gc.collect()
 
 
 # ---- exploration jobs (picklable descriptions, executed in worker processes) ----------
